@@ -69,13 +69,15 @@ func runC12(rc *RC) {
 	if ch.Chance("workload", 1, 2) {
 		rc.Net.Chunk = func() int { return 1 + ch.Int("net", 100) }
 	}
-	switch sub := ch.Int("workload", 5); sub {
+	switch sub := ch.Int("workload", 6); sub {
 	case 0, 1:
 		c12RoundTrip(rc)
 	case 2:
 		c12Headers(rc, false)
 	case 3:
 		c12Headers(rc, true)
+	case 4:
+		c12BindReceiver(rc)
 	default:
 		c12Bind(rc)
 	}
@@ -376,7 +378,19 @@ func c12Headers(rc *RC, sutReceives bool) {
 	}
 	hc := cases[ch.Int("workload", len(cases))]
 	restartCase := ch.Chance("workload", 1, 3)
-	changed := ch.Int("workload", 5) // after the restart: 0 same addresses, 1 different from, 2 different to, 3/4 from/to differing only in the resourcepart
+	// after the restart: 0 same addresses, 1 different from, 2 different to, 3/4 from/to differing only in the resourcepart,
+	// 5/6 from/to replaced by an address of the same length and shape (one letter of the local- or domainpart differs)
+	changed := ch.Int("workload", 7)
+	sameShape := func(a string) string {
+		// example.net -> example.org, me@example.net -> ne@example.net
+		if i := strings.IndexByte(a, '@'); i > 0 {
+			return string(a[0]+1) + a[1:]
+		}
+		if strings.HasSuffix(a, ".net") {
+			return strings.TrimSuffix(a, ".net") + ".org"
+		}
+		return string(a[0]+1) + a[1:]
+	}
 	useDecoy := ch.Chance("workload", 1, 2)
 	rc.Describe("headers sutReceives=%v ws=%v case=%s restart=%v changed=%d decoy=%v", sutReceives, ws, hc.name, restartCase, changed, useDecoy)
 	rc.CaseKey = fmt.Sprint("hdr", sutReceives, ws, hc.name, restartCase, changed)
@@ -447,6 +461,10 @@ func c12Headers(rc *RC, sutReceives bool) {
 				f = origin.String() + "/other"
 			case 4:
 				t = "example.net/other"
+			case 5:
+				f = sameShape(origin.String())
+			case 6:
+				t = sameShape("example.net")
 			}
 			if changed != 0 && useDecoy {
 				decoy = fmt.Sprintf(` xmlns:x='urn:x' x:from='%s' x:to='%s'`, origin.String(), "example.net")
@@ -484,6 +502,10 @@ func c12Headers(rc *RC, sutReceives bool) {
 			f = "example.net/other"
 		case 4:
 			t = origin.String() + "/other"
+		case 5:
+			f = sameShape("example.net")
+		case 6:
+			t = sameShape(origin.String())
 		}
 		if changed != 0 && useDecoy {
 			decoy = fmt.Sprintf(` xmlns:x='urn:x' x:from='%s' x:to='%s'`, "example.net", origin.String())
@@ -561,11 +583,115 @@ func (sd *c01Side) negotiatedAnything() bool {
 	return false
 }
 
+// (d) scripted initiator against the real receiving side of resource binding: the request's attributes in any order,
+// with attributes of other namespaces that are named like the stanza's own.
+func c12BindReceiver(rc *RC) {
+	ch := rc.Ch
+	origin := genJID(rc, "workload", false)
+	reqRes := ""
+	if ch.Chance("workload", 2, 3) {
+		reqRes = genJID(rc, "workload", true).Resourcepart()
+	}
+	useCB := ch.Chance("workload", 1, 2)
+	cc, sc := rc.Net.Pipe("cli", "srv")
+	ctx, cancel := context.WithTimeout(context.Background(), 30*time.Second)
+	rc.OnCleanup(func() { cancel(); cc.Close(); sc.Close() })
+	var cbCalls []string
+	var assigned jid.JID
+	feat := xmpp.BindResource()
+	if useCB {
+		feat = xmpp.BindCustom(func(j jid.JID, res string) (jid.JID, error) {
+			cbCalls = append(cbCalls, j.String()+"|"+res)
+			assigned, _ = j.WithResource("srv-" + res)
+			return assigned, nil
+		})
+	}
+	var err error
+	done := false
+	rc.Spawn("sut", func() {
+		_, err = xmpp.ReceiveSession(ctx, sc, xmpp.Secure|xmpp.Authn, xmpp.NewNegotiator(func(*xmpp.Session, *xmpp.StreamConfig) xmpp.StreamConfig {
+			return xmpp.StreamConfig{Features: []xmpp.StreamFeature{feat}}
+		}))
+		done = true
+	})
+	reqID := "bind-" + c06IDTail(ch) + fmt.Sprint(ch.Int("workload", 1000))
+	attrs := []string{` type='set'`, ` id='` + escText(reqID) + `'`}
+	if ch.Chance("workload", 1, 2) {
+		attrs = append(attrs, ` to='`+escText(origin.Domain().String())+`'`)
+	}
+	decoys := 0
+	if ch.Chance("workload", 1, 2) {
+		attrs = append(attrs, ` xmlns:x='urn:verif:x'`)
+		for _, d := range []string{` x:id='decoy-id'`, ` xml:id='decoy-xml-id'`, ` xmlns:id='urn:verif:decoy'`, ` x:type='result'`, ` x:to='nobody@example.org'`} {
+			if ch.Chance("workload", 1, 2) {
+				attrs = append(attrs, d)
+				decoys++
+			}
+		}
+	}
+	for i := len(attrs) - 1; i > 0; i-- {
+		k := ch.Int("workload", i+1)
+		attrs[i], attrs[k] = attrs[k], attrs[i]
+	}
+	resEl := ""
+	if reqRes != "" {
+		resEl = "<resource>" + escText(reqRes) + "</resource>"
+	}
+	req := `<iq` + strings.Join(attrs, "") + `><bind xmlns='urn:ietf:params:xml:ns:xmpp-bind'>` + resEl + `</bind></iq>`
+	rc.Describe("bind-receiver origin=%q callback=%v request=%s", origin.String(), useCB, req)
+	rc.CaseKey = fmt.Sprint("bindrecv", useCB, reqRes != "", decoys)
+	out := sc.Out()
+	rc.Spawn("script", func() {
+		fmt.Fprintf(cc, `<?xml version='1.0'?><stream:stream xmlns='jabber:client' xmlns:stream='http://etherx.jabber.org/streams' version='1.0' from='%s' to='%s'>`, escText(origin.String()), escText(origin.Domain().String()))
+		simrt.WaitUntil("script:features", func() bool { return done || bytes.Contains(out.Tap, []byte("</stream:features>")) })
+		io.WriteString(cc, req)
+	})
+	rc.S.Run(func() bool { return done }, 60000, time.Minute)
+	if !done {
+		rc.Failf("C12.c7", "bind-receiver-hangs", "the receiving side has not returned: stuck %v", rc.S.Stuck())
+		return
+	}
+	w := ParseWire(out.Tap)
+	if w.Err != nil {
+		rc.Failf("C12.c1", "receiver-output-not-well-formed", "receiver's output is not well-formed XML: %v: %s", w.Err, clip(string(out.Tap), 300))
+		return
+	}
+	var reply *Elem
+	for i, e := range w.Elems {
+		if e.Start.Name.Local == "iq" {
+			reply = &w.Elems[i]
+		}
+	}
+	rc.Evals["C12.c7"]++
+	if reply == nil {
+		rc.Failf("C12.c7", "bind-request-not-answered", "the bind request %s got no reply (receiver returned %v): %s", req, err, clip(string(out.Tap), 300))
+		return
+	}
+	rc.Check("C12.c7", "bind-reply-id", reply.Attr("id") == reqID, "bind reply has id %q, the request %s had %q", reply.Attr("id"), req, reqID)
+	got := ""
+	for i, t := range reply.Toks {
+		if st, ok := t.(xml.StartElement); ok && st.Name.Local == "jid" && i+1 < len(reply.Toks) {
+			if cd, ok := reply.Toks[i+1].(xml.CharData); ok {
+				got = string(cd)
+			}
+		}
+	}
+	if useCB {
+		rc.Check("C12.c7", "callback-arguments", len(cbCalls) == 1 && strings.HasSuffix(cbCalls[0], "|"+reqRes), "bind callback was called with %q, the request asked for %q", cbCalls, reqRes)
+		rc.Check("C12.c7", "bind-reply-callback-address", got == assigned.String(), "receiver replied %q, the callback returned %q", got, assigned.String())
+	} else {
+		j, perr := jid.Parse(got)
+		if perr != nil || !j.Bare().Equal(origin.Bare()) || j.Resourcepart() == "" {
+			rc.Failf("C12.c7", "bind-reply-random-resource", "receiver without callback replied %q, want a random resource of %q", got, origin.Bare().String())
+		}
+	}
+}
+
 // (c) scripted bind server against the real initiator.
 func c12Bind(rc *RC) {
 	ch := rc.Ch
 	origin := genJID(rc, "workload", true)
-	mode := ch.Int("workload", 5) // 0 result, 1 result other address, 2 error, 3 wrong id, 4 malformed
+	mode := ch.Int("workload", 6) // 0 result, 1 result other address, 2 error, 3 wrong id, 4 malformed, 5 error without an <error/> payload
 	assigned := origin
 	if mode == 1 {
 		assigned = genJID(rc, "workload", true)
@@ -611,6 +737,8 @@ func c12Bind(rc *RC) {
 			fmt.Fprintf(sc, `<iq type='result' id='other-%s'><bind xmlns='urn:ietf:params:xml:ns:xmpp-bind'><jid>%s</jid></bind></iq>`, esc(id), esc(assigned.String()))
 		case 4:
 			fmt.Fprintf(sc, `<iq type='result' id='%s'><bind xmlns='urn:ietf:params:xml:ns:xmpp-bind'><jid>not a@valid@jid/</jid></bind></iq>`, esc(id))
+		case 5:
+			fmt.Fprintf(sc, []string{`<iq type='error' id='%s'/>`, `<iq type='error' id='%s'><bind xmlns='urn:ietf:params:xml:ns:xmpp-bind'/></iq>`}[ch.Int("script", 2)], esc(id))
 		}
 	})
 	rc.S.Run(func() bool { return done }, 60000, time.Minute)
@@ -655,6 +783,23 @@ func c12Bind(rc *RC) {
 		}
 	case 2:
 		rc.Check("C12.c6", "bind-error-not-returned", err != nil, "server answered with a stanza error, the initiator returned %v", err)
+	case 5:
+		// the error that comes back must be a usable error value
+		msg, bad := "", false
+		func() {
+			defer func() {
+				if r := recover(); r != nil {
+					bad = true
+				}
+			}()
+			if err != nil {
+				msg = err.Error()
+			}
+		}()
+		if err == nil || bad {
+			rc.Failf("C12.c6", "bind-error-reply-without-payload", "server answered the bind request with an error IQ that carries no <error/>; the initiator returned an error value of type %T (nil=%v) whose Error method panics=%v", err, err == nil, bad)
+		}
+		_ = msg
 	case 3:
 		rc.Check("C12.c6", "bind-wrong-id-accepted", err != nil, "server answered with another id and the initiator returned nil")
 	case 4:
